@@ -70,8 +70,42 @@ Fixpoint mconcat {A B} (f : A -> res (list B)) (l : list A) : res (list B) :=
   end.
 Definition public_fields (T : table) (c : name) : list fdecl :=
   filter (fun f => negb (f_private f)) (lookup_tab T c).
+
+(* ---- WrappedField.resolved_type when the module cannot see a name (TYPE_CHECKING-only import) ----
+   get_type_hints(cls) evaluates every annotation of every class of the MRO (base first) in that class's module;
+   the first name it cannot find is e.  The retry passes the diagram's classes plus e as local namespace;
+   a second unknown name is not caught. *)
+Definition hidden_of (p : prog) (k : name) : list name :=
+  match find_decl p k with Some d => d_hidden d | None => [] end.
+Fixpoint leaf_names (t : ty) : list name :=
+  match t with
+  | Fwd n => [n]
+  | Optional a | OptionalL a | Pep604 a | Cont _ a | TypeOf a => leaf_names a
+  | DictOf k v => leaf_names k ++ leaf_names v
+  | _ => []
+  end.
+(* reversed MRO along the first base (exact for single inheritance) *)
+Fixpoint chain (fuel : nat) (p : prog) (c : name) : list name :=
+  match fuel with
+  | O => [c]
+  | S k => match bases_of p c with b :: _ => chain k p b ++ [c] | [] => [c] end
+  end.
+Definition unresolved (p : prog) (c : name) : list name :=
+  flat_map (fun k => flat_map (fun f => filter (fun n => mem n (hidden_of p k)) (leaf_names (f_ann f)))
+                              (own_fields p k)) (chain (length p) p c).
+Definition hints_check (p : prog) (ns : list name) (c : name) : res unit :=
+  match unresolved p c with
+  | [] => Ok tt
+  | e :: _ => if forallb (fun n => mem n ns || Pos.eqb n e) (unresolved p c) then Ok tt else Raise NameError
+  end.
+(* resolved_type is first read for the first public field; a class without public fields is never resolved *)
+Definition class_edges (p : prog) (T : table) (ns : list name) (c : name) : res (list edge) :=
+  match public_fields T c with
+  | [] => Ok []
+  | fs => bind (hints_check p ns c) (fun _ => mconcat (field_edge p ns c) fs)
+  end.
 Definition assoc_edges (p : prog) (ns : list name) : res (list edge) :=
-  let T := tab p in mconcat (fun c => mconcat (field_edge p ns c) (public_fields T c)) ns.
+  let T := tab p in mconcat (class_edges p T ns) ns.
 
 Definition build (p : prog) (cs : list name) : res graph :=
   let ns := nodes_of cs in
